@@ -105,6 +105,9 @@ def directed(rng: random.Random) -> dict:
         else:
             n = "lb%d" % len(body)
             body += [{"k": "label", "n": n}, {"k": "data", "d": "dl", "es": [E(n)]}]
+            if rng.random() < 0.3:
+                # a dispatch table: sixteen and more entries in one directive, constants (null slots) and label references mixed
+                body.append({"k": "data", "d": rng.choice(["dw", "dl"]), "es": [E(n) if rng.random() < 0.3 else E(rng.choice([0, 0, 0xFFFF, rng.randrange(1 << 16)])) for _ in range(rng.choice([16, 17, 24, 33]))]})
     if rng.random() < 0.2:
         # one file of data included at two (or three) positions of the same source: its bytes are written at each of them
         inc_b = [{"k": "data", "d": rng.choice(["db", "dw", "dl"]), "es": [E(rng.randrange(1 << 16)) for _ in range(rng.randint(1, 6))]}, {"k": "ascii", "t": "tbl"}]
